@@ -35,14 +35,14 @@ func routeHandler(name string, vars []string) rux.HandlerFunc {
 
 // BuildRouter registers the table on a fresh router.
 func BuildRouter(tb *Table, opts ...func(*rux.Router)) *rux.Router {
-	r := rux.New(opts...)
+	r := NewRouterVia(tb.Via, opts...)
 	for _, rt := range tb.Routes {
 		vs, _ := rt.Pat.Vars()
 		names := make([]string, len(vs))
 		for i, v := range vs {
 			names[i] = v.Name
 		}
-		r.AddNamed(rt.Name, rt.Pat.String(), routeHandler(rt.Name, names), rt.Methods...)
+		rt.Register(r, routeHandler(rt.Name, names))
 	}
 	return r
 }
